@@ -11,3 +11,5 @@ import RodbusModel.Props.C17
 #print axioms Rodbus.C17.unit0_ordinary_on_tcp
 #print axioms Rodbus.C17.unit0_served_on_tcp
 #print axioms Rodbus.C17.unit0_unconfigured_on_tcp
+#print axioms Rodbus.C17.silent_unless_addressed_or_denied
+#print axioms Rodbus.C17.denied_answered_even_if_unconfigured
